@@ -14,6 +14,7 @@ mod ws_swarm;
 mod addr;
 mod http_resp;
 mod http_req;
+mod ws_codec;
 
 use std::collections::HashMap;
 
@@ -117,6 +118,7 @@ fn main() {
         "addr" => addr::run(&args),
         "http-resp" => http_resp::run(&args),
         "http-req" => http_req::run(&args),
+        "ws-codec" => ws_codec::run(&args),
         "config-refusal" => http_resp::run_refusal(&args),
         "export-child" => export_crash::child(&args),
         other => {
